@@ -22,6 +22,8 @@ func (vc *FuncVC) reset() {
 	vc.declOrder = nil
 	vc.declared = map[string]string{}
 	vc.items = nil
+	vc.topBlock = nil
+	vc.reachTo = nil
 	vc.obls = nil
 	vc.regs = map[ssa.Value]Term{}
 	vc.addrs = map[ssa.Value]*Addr{}
@@ -297,12 +299,21 @@ func (vc *FuncVC) execute() {
 		}
 	}
 	vc.params = penv
+	vc.lets = map[string]Term{}
 	// requires
 	if vc.c != nil {
 		e := vc.newEnv(s, s, fn.Pos())
 		vc.bindFreeVars(e, s, fn, func(fv *ssa.FreeVar) Term { return vc.regs[fv] })
 		for k, v := range penv {
 			e.vars[k] = v
+		}
+		for _, l := range vc.c.Lets {
+			t := vc.tr(e, l.E)
+			got := t.GoT
+			t = vc.nameTerm(t, "let_"+l.Name)
+			t.GoT = got
+			vc.lets[l.Name] = t
+			e.vars[l.Name] = t
 		}
 		for _, cl := range vc.c.Req {
 			if cl.active(vc.prop) {
@@ -328,6 +339,9 @@ func (vc *FuncVC) runFrame(fr *frame, s *State) {
 			continue
 		}
 		var st *State
+		if !fr.inlined {
+			vc.topBlock = b
+		}
 		if b.Index == 0 {
 			st = s
 		} else {
@@ -1198,7 +1212,7 @@ func (vc *FuncVC) execInstr(s *State, in ssa.Instruction) {
 		case *types.Slice:
 			sl := vc.val(s, x.X)
 			vc.safety(s, "safe.idx", "index:"+vc.describe(x.X), x.Pos(), T("Bool", fmt.Sprintf("(and (<= 0 %s) (< %s (s!len %s)))", idx.S, idx.S, sl.S)))
-			vc.addrs[x] = &Addr{kind: "arr", base: app("Int", "s!arr", sl), idx: T("Int", fmt.Sprintf("(+ (s!off %s) %s)", sl.S, idx.S)), typ: ut.Elem(), elem: ut.Elem()}
+			vc.addrs[x] = &Addr{kind: "arr", base: app("Int", "s!arr", sl), idx: ixTerm(sliceOff(sl), idx), typ: ut.Elem(), elem: ut.Elem()}
 		case *types.Pointer:
 			at := ut.Elem().Underlying().(*types.Array)
 			ref := vc.val(s, x.X)
